@@ -25,6 +25,24 @@ def frames(seed, n, max_lit, max_count, release=False):
     return rows
 
 
+def asan_frames(seed, n, max_lit, max_count):
+    """Thorough tier: the same histories with the harness built under AddressSanitizer (nightly, offline)."""
+    tdir = os.path.join(C.ROOT, "harness", "target-asan")
+    env = dict(C.ENV, CARGO_NET_OFFLINE="true", RUSTFLAGS="-Zsanitizer=address", CARGO_TARGET_DIR=tdir)
+    rc, out, _ = C.run(["cargo", "+nightly", "build", "--offline", "--target", "x86_64-unknown-linux-gnu"], cwd=os.path.join(C.ROOT, "harness"), env=env, timeout=3000)
+    if rc != 0:
+        return None, "AddressSanitizer build not available: " + out[-300:]
+    binp = os.path.join(tdir, "x86_64-unknown-linux-gnu", "debug", "harness")
+    rc, out, _ = C.run([binp, "frames", str(seed), str(n), str(max_lit), str(max_count)], timeout=6000, env=dict(C.ENV, ASAN_OPTIONS="detect_leaks=0"))
+    if rc != 0 or "AddressSanitizer" in out:
+        raise C.Violation(PROP, "AddressSanitizer reports a memory error while frames are read",
+                          "ASAN harness frames %d %d %d %d\n%s" % (seed, n, max_lit, max_count, out[-3000:]), True)
+    bad = [l for l in out.split("\n") if l and not l.endswith("\tOK")]
+    if bad:
+        raise C.Violation(PROP, "a frame changed under AddressSanitizer", bad[0][-1500:], True)
+    return len([l for l in out.split("\n") if l]), None
+
+
 def model_frames(events):
     rc, mout = C.run_driver(["frames"], "\n".join(events) + "\n")
     model = mout.split("\n")
@@ -86,6 +104,10 @@ def run(tier, seed, t0):
         raise C.Violation(PROP, "a delivered frame does not own what its parsed view shows / a borrowed view can outlive its frame", bad, True)
     if not proof["ok"]:
         raise C.Violation(PROP, proof["failure"], "search: %d histories and programs: every retained frame re-read identically; every escaping program rejected" % total, False)
+    asan_note = "not run in the quick tier"
+    if tier != "quick":
+        na, why = asan_frames(seed + 7, 200, 1048576, 200)
+        asan_note = ("%d histories clean under AddressSanitizer" % na) if na is not None else why
     C.ensure_built(PROP)
     small = [r for r in rows if len(r[0]) < 150000]
     model = model_frames([r[0] for r in small])
@@ -101,7 +123,7 @@ def run(tier, seed, t0):
                      evaluations=total + evals, distinct_nontrivial=kept,
                      rule="search oracle (implementation only): histories of 1..200 generated responses (literals 0, 1, 100, 700, 8191, 8192, 9000, 40 000, 70 000, 150 000, 300 000, 1 MiB; tagged completions; every response kind) through the real Framed<MockIo, ImapCodec> in packets of 1..3 bytes / 512 / 1500 / up to 70 000 bytes; each frame is snapshotted at delivery (canonical dump of parsed(), copy of raw_bytes()), every borrowed string of the view must lie inside raw_bytes() by address (library string constants excepted), frames are retained with probability 1, 1/2, 1/8 or 1/40 and dropped in random order, the allocator is churned after every frame, every 7 frames and after the connection is dropped all retained frames must dump and read as at delivery, then again on another thread where they are dropped in reverse order. 15 client programs that try to keep a view past its frame (parsed(), request_id(), raw_bytes(), deref, clone, fields, AsRef, Into, threads, collections) must each be rejected by rustc and the control program must compile. distinct = histories that ended with retained frames.",
                      samples=samples,
-                     extra=dict(theorems=proof["names"], correspondence_cases=evals, histories=len(rows)),
+                     extra=dict(theorems=proof["names"], correspondence_cases=evals, histories=len(rows), address_sanitizer=asan_note),
                      assumptions=["bytes crate semantics as modelled in Frames.v (split_to shares; the BytesMut writes only at or after the end of its window; reclaiming the front only when unshared; otherwise a fresh allocation) -- modelled, not verified",
                                   "PARTIAL: 'safe code cannot obtain a reference that outlives the frame' is decided by rustc on the program set plus the reflection c07_api_discipline over the regenerated API surface; there is no Coq model of Rust's borrow checker",
                                   "the unsafe transmute itself is justified by c07_decode_is_the_modelled_sequence (parse in place, then split_to(rsp_len).freeze(), nothing in between) + c07_frame_is_the_parsed_region; AddressSanitizer is used in the thorough tier when the nightly toolchain supports it offline"])
